@@ -113,8 +113,17 @@ def run_crash(binary, cases, shards=None):
             except subprocess.TimeoutExpired as e:
                 out = (e.stdout or b"").decode("utf-8", "replace").split("\n")
                 rc, err = -999, "driver timeout"
+                if out and out[-1] != "":
+                    out[-1] = ""            # a partly written line
             if out and out[-1] == "":
                 out.pop()
+            if rc == -999 and 0 < len(out) < len(todo):
+                # the driver's limit for the whole chunk (a loaded machine), not a property of the case that happened to
+                # be running: keep what was finished and carry on from there
+                for k, o in enumerate(out):
+                    res[todo[k]] = o
+                pos += len(out)
+                continue
             for k, o in enumerate(out[:len(todo)]):
                 res[todo[k]] = o
             if len(out) >= len(todo):
@@ -142,12 +151,13 @@ def run_crash(binary, cases, shards=None):
     return res
 
 
-def run_single(binary, case):
+def run_single(binary, case, timeout_ms=None):
+    timeout_ms = timeout_ms or CASE_TIMEOUT_MS
     env = dict(common.ENV)
-    env["NV_CASE_TIMEOUT_MS"] = str(CASE_TIMEOUT_MS)
+    env["NV_CASE_TIMEOUT_MS"] = str(timeout_ms)
     try:
         p = subprocess.run([binary, "crash"], input=case_line(case).encode(), preexec_fn=_limit_child,
-                           stdout=subprocess.PIPE, stderr=subprocess.PIPE, timeout=CASE_TIMEOUT_MS / 1000 + 60, env=env)
+                           stdout=subprocess.PIPE, stderr=subprocess.PIPE, timeout=timeout_ms / 1000 + 60, env=env)
     except subprocess.TimeoutExpired:
         return "H|driver"
     out = p.stdout.decode("utf-8", "replace").split("\n")
@@ -565,23 +575,23 @@ def run(chk):
         cases.append((0, src, "corpus"))
     for s in extreme_literals(rng):
         cases.append((0, s, "extreme"))
-    for _ in range(900 if quick else 15000):
+    for _ in range(900 if quick else 8000):
         cases.append((rng.choice([0, 0, 0, 1]), gen_program(rng), "grammar"))
     files = corpus_files()
     texts = {f: open(f, encoding="utf-8").read() for f in files}
-    for _ in range(700 if quick else 12000):
+    for _ in range(700 if quick else 6000):
         f = rng.choice(files)
         cases.append((0, mutate(rng, texts[f]), "mutation"))
-    for s in soup(rng, 500 if quick else 8000):
+    for s in soup(rng, 500 if quick else 4000):
         cases.append((rng.choice([0, 1]), s, "soup"))
-    for _ in range(500 if quick else 10000):
+    for _ in range(500 if quick else 5000):
         cases.append((rng.choice([0, 0, 1]), format_program(rng), "format-spec"))
-    for _ in range(200 if quick else 4000):
+    for _ in range(200 if quick else 2000):
         cases.append((0, strftime_program(rng), "strftime"))
-    for _ in range(250 if quick else 5000):
+    for _ in range(250 if quick else 2500):
         cases.append((3, SEQ_SEP.join(session_sequence(rng)), "session-sequence"))
     sigs = stdlib_signatures()
-    for _ in range(700 if quick else 12000):
+    for _ in range(700 if quick else 6000):
         cases.append((0, stdlib_call(rng, rng.choice(sigs)), "stdlib-call"))
 
     outs = run_crash(binary, [(m, s) for m, s, _ in cases])
@@ -599,7 +609,7 @@ def run(chk):
             release_note = "release build of the harness failed: " + out[-300:]
         else:
             rel_cases = [(m, s, f + "@release") for m, s, f in cases if f in ("corpus", "extreme", "format-spec")] + \
-                        [(m, s, f + "@release") for m, s, f in cases if f in ("grammar", "session-sequence", "stdlib-call")][:6000]
+                        [(m, s, f + "@release") for m, s, f in cases if f in ("grammar", "session-sequence", "stdlib-call")][:3000]
             rel_outs = run_crash(rel_bin, [(m, s) for m, s, _ in rel_cases])
             cases += rel_cases
             outs += rel_outs
@@ -634,6 +644,7 @@ def run(chk):
 
     # the refuted-lemma witnesses must still crash the implementation (else the finding is fixed: say so)
     reported = 0
+    slow_under_load = []
     seen_sites = set()
     hits = collections.Counter()
     for m, s, family, o in fails:
@@ -646,6 +657,14 @@ def run(chk):
         site = site_of(o)[:2] + (site_of(o)[2][:40],)
         if site in seen_sites or reported >= 5:
             continue
+        if site_of(o)[0] == "hang" or "driver timeout" in o:
+            # a watchdog hit is wall-clock: on a loaded machine a slow input looks like a hang.  Only an input that
+            # still does not finish alone with 8x the time is reported.
+            again = run_single(rel_bin if family.endswith("@release") else binary, (m, s), timeout_ms=8 * CASE_TIMEOUT_MS)
+            if not is_failure(again):
+                slow_under_load.append(s[:80])
+                continue
+            o = again
         seen_sites.add(site)
         small = shrink(binary, m, s, o)
         o2 = run_single(binary, (m, small))
@@ -661,6 +680,9 @@ def run(chk):
         reported += 1
     if release_note:
         chk.notes.append(release_note)
+    if slow_under_load:
+        chk.notes.append("watchdog hits that finished when rerun alone with 8x the time (machine load, not hangs): %d, e.g. %r"
+                         % (len(slow_under_load), slow_under_load[:2]))
     if known_hits_summary := {k: v for k, v in hits.items()}:
         chk.notes.append("known findings hit: %s" % known_hits_summary)
     if not reported and not proved:
